@@ -5,6 +5,7 @@
 -/
 import PyIpmi.Model.SelXfer
 import PyIpmi.Spec.SelDevice
+import PyIpmi.Spec.SelRecord
 namespace PyIpmi.SelXfer
 open PyIpmi PyIpmi.Spec.Sel
 open PyIpmi.FruXfer (Wire Xchg Send World Res xchg castErr)
@@ -14,6 +15,17 @@ def stdCfg : Cfg := ⟨255, 16, 16, 1, 202, 197, 0, 65535⟩
 
 /-- A floor of `max_req_len` that leaves every length ≥ 1 usable (as shipped: none; repaired: 0). -/
 def FloorOk (v : Variant) : Prop := ∀ f, v.floor = some f → f ≤ 0
+
+/-- decidable form of `FloorOk` -/
+def floorOkB (v : Variant) : Bool :=
+  match v.floor with
+  | none => true
+  | some f => decide (f ≤ 0)
+
+theorem floorOk_of_B {v : Variant} (h : floorOkB v = true) : FloorOk v := by
+  intro f hf
+  simp only [floorOkB, hf, decide_eq_true_eq] at h
+  exact h
 
 theorem floorOk_asShipped : FloorOk .asShipped := by intro f h; cases h
 theorem floorOk_intended : FloorOk .intended := by
@@ -975,6 +987,56 @@ theorem getAndClear_succeeds (rid : Nat) (hrid : rid < 65536) (v : Variant) (hfl
       exact ih g.w hpost.wf hgdel (by omega) halwg
     | _ => exfalso; rcases hgood with ⟨p, h⟩ | h <;> rw [hg] at h <;> cases h
 
+/-! ### a peer that keeps cancelling -/
+
+theorem tick_cons_some (d : SelDev) (c : Change) (r : List (Option Change)) (h : d.evs = some c :: r) :
+    tick d = { d with evs := r, valid := false, log := c.apply d.log } := by
+  simp [tick, h]
+
+/-- A script of 2·n cancellations (one before every request) costs get-and-clear n full rounds -
+Reserve SEL, Get SEL Entry answered C5h - and what it ends with after them is the exhausted
+recursion argument: RetryError for the repaired loop, out of fuel for the pinned `while True`
+(whatever fuel `n` it is given, there is a script that uses it up). -/
+theorem getAndClear_cancelled_rounds (v : Variant) (rid : Nat) (hrid : rid < 65536) :
+    ∀ (n : Nat) (w : World SelDev), w.dev.evs = List.replicate (2 * n) (some .cancel) →
+      (getAndClear stdCfg v respond n w rid).out = gacExhausted v ∧
+      (getAndClear stdCfg v respond n w rid).w.trace.length = w.trace.length + 2 * n := by
+  intro n
+  induction n with
+  | zero => intro w _; exact ⟨rfl, rfl⟩
+  | succ n ih =>
+    intro w hev
+    have hev' : w.dev.evs = some .cancel :: some .cancel :: List.replicate (2 * n) (some .cancel) := by
+      rw [hev, show 2 * (n + 1) = (2 * n + 1) + 1 by omega, List.replicate_succ, List.replicate_succ]
+    have ht1 := tick_cons_some w.dev .cancel _ hev'
+    unfold getAndClear
+    simp only [reserve, xchg, respond_reserve]
+    have hr1 : 1 ≤ (tick w.dev).cur % 0xFFFF + 1 := by omega
+    have hr : (tick w.dev).cur % 0xFFFF + 1 < 65536 := by omega
+    simp only [decodeU16_ok _ hr]
+    generalize hrdef : (tick w.dev).cur % 0xFFFF + 1 = r at hr1 hr ⊢
+    generalize hw1 : (⟨{ tick w.dev with cur := r, valid := true },
+      w.trace ++ [⟨reserveReq, [0, r % 256, r / 256 % 256]⟩]⟩ : World SelDev) = w1
+    have hevs1 : w1.dev.evs = some .cancel :: List.replicate (2 * n) (some .cancel) := by rw [← hw1, ht1]
+    have hl1 : w1.trace.length = w.trace.length + 1 := by rw [← hw1]; simp
+    have ht2 := tick_cons_some w1.dev .cancel _ hevs1
+    have hh : holds (tick w1.dev) r = false := by rw [ht2]; simp [holds]
+    have he : ((stdCfg.entire : Nat) : Int) = ((255 : Nat) : Int) := rfl
+    simp only [getSelEntry, entryFuel, he]
+    rw [entryLoop]
+    simp only [xchg, wire_reqLen 255 0 (by omega) (by omega), List.length_nil,
+      respond_get_cancel w1.dev r rid 0 (reqLenN 255 0) hr1 hr hrid (by omega) (by simp [reqLenN]) hh,
+      ccCancelled, decodeGet_cc 197 (by decide), std_ccShrink, std_ccCancel,
+      show (197 : Nat) = 202 ↔ False by decide, if_false, ne_eq, show ¬ (197 : Nat) = 0 by decide,
+      not_false_eq_true, if_true]
+    have hev2 : (tick w1.dev).evs = List.replicate (2 * n) (some .cancel) := by rw [ht2]
+    constructor
+    · refine (ih _ ?_).1
+      exact hev2
+    · refine Eq.trans (ih _ ?_).2 ?_
+      · exact hev2
+      · simp only [List.length_append, List.length_singleton, hl1]; omega
+
 /-! ### the shape of a successful get-and-clear on the wire (any peer, any constants) -/
 
 /-- `x` is a Get SEL Entry request for record `rid` carrying reservation `r`. -/
@@ -1079,5 +1141,71 @@ theorem getAndClear_trace {σ} (cfg : Cfg) (v : Variant) (send : Send σ) (rid :
         · intro h; cases h
       | _ => intro h; simp [castErr] at h
     | _ => intro h; simp [castErr] at h
+
+/-! ### record decoding (`SelEntry._from_response`) against the record formats of IPMI §32 -/
+
+section decoding
+open PyIpmi.Spec.SelRecord
+
+theorem selEntry_decode (data : List Nat) (next : Nat) :
+    selEntry data next = match decodeEntry data with
+      | .ok a => .ok (a.data, next)
+      | _ => .decodingError := by
+  unfold selEntry decodeEntry
+  split
+  · rfl
+  · dsimp only
+    split <;> rfl
+
+theorem decode_system (id ts gen evm st sn : Nat) (de : Bool) (et d1 d2 d3 : Nat)
+    (h : (RecView.system id ts gen evm st sn de et d1 d2 d3).Wf) :
+    decodeEntry (RecView.system id ts gen evm st sn de et d1 d2 d3).encode =
+      .ok ⟨(RecView.system id ts gen evm st sn de et d1 d2 d3).encode, id, 2, ts, gen, evm, st, sn, de, et, [d1, d2, d3]⟩ := by
+  obtain ⟨h1, h2, h3, h4, h5, h6, h7, h8, h9, h10⟩ := h
+  simp only [RecView.encode, leBytes, decodeEntry, List.cons_append, List.nil_append, List.append_nil, List.length_cons,
+    List.length_nil, ne_eq, not_true_eq_false, if_false, List.getD_cons_succ, List.getD_cons_zero, true_or, if_true,
+    List.take, List.drop, leVal, Nat.reduceAdd]
+  congr 1
+  cases de <;> simp <;> refine ⟨?_, ?_, ?_, ?_, ?_⟩ <;> omega
+
+theorem decode_oemTimestamped (id t ts mfg o1 o2 o3 o4 o5 o6 : Nat)
+    (h : (RecView.oemTimestamped id t ts mfg [o1, o2, o3, o4, o5, o6]).Wf) :
+    ∃ a, decodeEntry (RecView.oemTimestamped id t ts mfg [o1, o2, o3, o4, o5, o6]).encode = .ok a ∧
+      a.data = (RecView.oemTimestamped id t ts mfg [o1, o2, o3, o4, o5, o6]).encode ∧
+      a.recordId = id ∧ a.type = t ∧ a.timestamp = ts := by
+  obtain ⟨h1, h2, h3, h4, h5, _, _⟩ := h
+  have ht : t = 2 ∨ (0xC0 ≤ t ∧ t < 0x100) := Or.inr ⟨h2, by omega⟩
+  simp only [RecView.encode, leBytes, decodeEntry, List.cons_append, List.nil_append, List.length_cons,
+    List.length_nil, ne_eq, not_true_eq_false, if_false, List.getD_cons_succ, List.getD_cons_zero, ht, if_true,
+    List.take, List.drop, leVal, Nat.reduceAdd]
+  refine ⟨_, rfl, rfl, ?_, rfl, ?_⟩ <;> simp only [] <;> omega
+
+theorem decode_oemPlain (id t o1 o2 o3 o4 o5 o6 o7 o8 o9 o10 o11 o12 o13 : Nat)
+    (h : (RecView.oemPlain id t [o1, o2, o3, o4, o5, o6, o7, o8, o9, o10, o11, o12, o13]).Wf) :
+    ∃ a, decodeEntry (RecView.oemPlain id t [o1, o2, o3, o4, o5, o6, o7, o8, o9, o10, o11, o12, o13]).encode = .ok a ∧
+      a.data = (RecView.oemPlain id t [o1, o2, o3, o4, o5, o6, o7, o8, o9, o10, o11, o12, o13]).encode ∧
+      a.recordId = id ∧ a.type = t := by
+  obtain ⟨h1, h2, h3, _, _⟩ := h
+  have ht : t = 2 ∨ (0xC0 ≤ t ∧ t < 0x100) := Or.inr ⟨by omega, by omega⟩
+  simp only [RecView.encode, leBytes, decodeEntry, List.cons_append, List.nil_append, List.length_cons,
+    List.length_nil, ne_eq, not_true_eq_false, if_false, List.getD_cons_succ, List.getD_cons_zero, ht, if_true,
+    List.take, List.drop, leVal, Nat.reduceAdd]
+  refine ⟨_, rfl, rfl, ?_, rfl⟩
+  simp only []; omega
+
+/-- what is accepted: 16 bytes of a known record type, kept as they are -/
+theorem decode_strict (data : List Nat) (a : Entry) (h : decodeEntry data = .ok a) :
+    data.length = 16 ∧ (data.getD 2 0 = 2 ∨ (0xC0 ≤ data.getD 2 0 ∧ data.getD 2 0 < 0x100)) ∧ a.data = data ∧
+      a.type = data.getD 2 0 := by
+  unfold decodeEntry at h
+  split at h
+  · cases h
+  · dsimp only at h
+    split at h
+    · rename_i hl ht
+      cases h
+      exact ⟨by omega, ht, rfl, rfl⟩
+    · cases h
+end decoding
 
 end PyIpmi.SelXfer
